@@ -200,12 +200,12 @@ def run(chk):
                 return 0
             sf = (b[0] >> 2) & 3
             return (b[0] >> 4) + (((b[1] & 0x3f) << 4) if sf < 2 else ((b[1] << 4) + ((b[2] & 3) << 12)) if sf == 2 else ((b[1] << 4) + ((b[2] & 0x3f) << 12)))
-        if max(huf_regen(f[p + 3:p + 3 + body]) for (p, last, ty, size, body) in blocks if ty == 2) > (131072 if thorough else 40000):
+        if max(huf_regen(f[p + 3:p + 3 + body]) for (p, last, ty, size, body) in blocks if ty == 2) > (60000 if thorough else 40000):
             nskipped[0] += 1
             continue
         cl.append(' '.join('R' if ty == 1 else 'W' if ty == 0 else hexs(f[p + 3:p + 3 + body]) for (p, last, ty, size, body) in blocks))
         cmeta.append((l, sum(1 for b in blocks if b[2] == 2), ln))
-    cl, cmeta = cl[:300 if thorough else 70], cmeta[:300 if thorough else 70]
+    cl, cmeta = cl[:160 if thorough else 70], cmeta[:160 if thorough else 70]
     cr = model_run('litchain', cl, timeout=2400, jobs=14, per_job=1)
     nlit = 0
     kinds_seen = {}
